@@ -371,7 +371,9 @@ impl Board {
     ///
     /// The fan period is mapped to the range \[0..255\].
     pub fn get_fan_period(&self) -> u8 {
-        u8::MAX - (u8::MAX as f32 / self.fan_rpm as f32 * MAX_FAN_RPM as f32) as u8
+        // The DAC voltage is `digital_output1 / 100`, so `255 / 2.55V * volt` is
+        // exactly the byte written to the output port.
+        u8::MAX - self.digital_output1
     }
 
     /// Is there an interrupt?
